@@ -31,6 +31,7 @@ func checkC05(c *Ctx) {
 	// the "old" side of a delta is taken before the modes are modified
 	c.checkSnapshotBeforeChange()
 	c.checkIntersectionPairsAreGenerations("C05.3d-intersections-pair-generations")
+	c.checkNoticeOldSideIsSnapshot("C05.4e-notice-before-side-is-snapshot")
 }
 
 func (c *Ctx) checkModeTables() {
